@@ -11,6 +11,7 @@
 #include <unistd.h>
 #include <signal.h>
 #include <sys/wait.h>
+#include <setjmp.h>
 #include "libconfig.h"
 
 static int in_lib = 0; static long counter = 0, fail_at = -1; static int handler_ran = 0;
@@ -21,7 +22,13 @@ void *__wrap_calloc(size_t a, size_t b) { if (HIT()) return NULL; return __real_
 void *__wrap_realloc(void *p, size_t n) { if (HIT()) return NULL; return __real_realloc(p, n); }
 char *__wrap_strdup(const char *s) { if (HIT()) return NULL; return __real_strdup(s); }
 
-static void fatal(const char *msg) { (void)msg; handler_ran = 1; fputs("handler\n", stdout); fflush(stdout); _exit(0); }
+static jmp_buf escape; static int use_longjmp = 0;
+static void fatal(const char *msg)
+{
+  (void)msg; handler_ran++;
+  if (use_longjmp) { in_lib = 0; longjmp(escape, 1); }      /* a handler that does not return, like the C++ API's throw */
+  fputs("handler\n", stdout); fflush(stdout); _exit(0);
+}
 
 static unsigned long digest(const config_setting_t *s, unsigned long h)
 {
@@ -38,7 +45,10 @@ static unsigned long digest(const config_setting_t *s, unsigned long h)
 
 static const char *TEXT = "name = \"a string value that is longer than sixty-four bytes so that the string buffer has to grow at least once\";\n"
   "grp = { a = 1; b = 2.5; c = [1, 2, 3]; l = ( \"x\", { y = true; }, (1, 2) ); };\n@include \"alloc_inc.cfg\"\n"
-  "k0=0;k1=1;k2=2;k3=3;k4=4;k5=5;k6=6;k7=7;k8=8;k9=9;k10=10;k11=11;k12=12;k13=13;k14=14;k15=15;k16=16;k17=17;\n";
+  "k0=0;k1=1;k2=2;k3=3;k4=4;k5=5;k6=6;k7=7;k8=8;k9=9;k10=10;k11=11;k12=12;k13=13;k14=14;k15=15;k16=16;k17=17;\n"
+  /* strings assembled from several pieces whose accumulated length crosses the 64-byte growth steps */
+  "esc = \"aaaaaaaaaaaaaaaaaaaaaaaaaaaaaaaaaaaaaaaaaaaaaaaaaaaaaaaaaaaa\\nbbbbbbbbbbbbbbbbbbbbbbbbbbbbbbbbbbbbbbbbbbbbbbbbbbbbbbbbbbbbbbbbbbbbbbbbbbbbbbbbb\\tcccccccccccccccccccccccccccccccccccccccccccccccccccccccccccccccccccccccc\";\n"
+  "cat = \"dddddddddddddddddddddddddddddddddddddddddddddddddd\" \"eeeeeeeeeeeeeeeeeeeeeeeeeeeeeeeeeeeeeeeeeeeeeeeeee\" \"ffffffffffffffffffffffffffffffffffffffffffffffffffffffffffffffffffffffff\";\n";
 
 static unsigned long scenario(int sc, config_t *cfg)
 {
@@ -89,6 +99,27 @@ int main(int argc, char **argv)
   config_set_fatal_error_func(fatal);
   while ((n = getline(&line, &cap, stdin)) > 0) {
     int sc; long k;
+    if (sscanf(line, "allocdouble %d %ld", &sc, &k) == 2 && sc >= 0 && sc <= 5) {
+      /* two allocation failures in ONE process with a handler that does not return: both must reach the handler */
+      pid_t pid; int st;
+      fflush(stdout);
+      pid = fork();
+      if (pid == 0) {
+        config_t cfg; volatile int round = 0;
+        use_longjmp = 1; handler_ran = 0;
+        if (setjmp(escape) == 0 || round < 2) {
+          if (round < 2) { round++; counter = 0; fail_at = k; scenario(sc, &cfg); }
+        }
+        in_lib = 0;
+        printf(handler_ran == 2 ? "handler handler\n" : (handler_ran == 1 ? "handler MISSING\n" : "MISSING\n")); fflush(stdout);
+        _exit(0);
+      }
+      waitpid(pid, &st, 0);
+      if (WIFSIGNALED(st)) printf("crash %d\n", WTERMSIG(st));
+      else if (WEXITSTATUS(st) != 0) printf("crash exit%d\n", WEXITSTATUS(st));
+      fflush(stdout);
+      continue;
+    }
     if (sscanf(line, "alloccase %d %ld", &sc, &k) != 2 || sc < 0 || sc > 5) { printf("bad-op\n"); fflush(stdout); continue; }
     if (k < 0) {
       config_t cfg; counter = 0; fail_at = -1;
